@@ -223,4 +223,57 @@ theorem requests_no_taint (sys : Sys P) (hm : sys.markAll = true) (n : Nat) :
         obtain ⟨c1, c2, c3⟩ := request_no_taint sys hm n s ht hs k r g s1 hr
         exact ih s1 rs2 s2 c1 c2 c3 hrs
 
+
+/-! ## what the code's marking rule marks (`markAll = false`) -/
+
+/-- the frames a spiral marks are a prefix of the stack (the most recent frames) -/
+theorem markSpiral_prefix (v : Nat) : ∀ (st : List (Node P)) (cnt : Nat), markSpiral v cnt st <+: st := by
+  intro st
+  induction st with
+  | nil => intro cnt; simp [markSpiral]
+  | cons k r ih =>
+    intro cnt
+    simp only [markSpiral]
+    split
+    · split
+      · exact ⟨r, rfl⟩
+      · exact (List.prefix_cons_inj k).2 (ih _)
+    · exact (List.prefix_cons_inj k).2 (ih _)
+
+/-- … which stops at the `cnt`-th frame of the spiralling variable: it holds exactly `cnt` frames
+    of that variable and ends with one -/
+theorem markSpiral_count (v : Nat) : ∀ (st : List (Node P)) (cnt : Nat), 1 ≤ cnt →
+    cnt ≤ (st.filter (fun k => k.1 = v)).length →
+    ((markSpiral v cnt st).filter (fun k => k.1 = v)).length = cnt ∧
+    ∃ k, (markSpiral v cnt st).getLast? = some k ∧ k.1 = v := by
+  intro st
+  induction st with
+  | nil => intro cnt h1 h2; simp at h2; omega
+  | cons k r ih =>
+    intro cnt h1 h2
+    simp only [markSpiral]
+    by_cases hk : k.1 = v
+    · simp only [hk, if_true]
+      by_cases hc : cnt ≤ 1
+      · simp only [hc, if_true]
+        have : cnt = 1 := by omega
+        subst this
+        exact ⟨by simp [hk], k, by simp, hk⟩
+      · simp only [hc, if_false]
+        have h2' : cnt - 1 ≤ (r.filter (fun k => k.1 = v)).length := by
+          simp [List.filter_cons, hk] at h2; omega
+        obtain ⟨i1, j, i2, i3⟩ := ih (cnt - 1) (by omega) h2'
+        refine ⟨by simp [List.filter_cons, hk, i1]; omega, j, ?_, i3⟩
+        cases hm : markSpiral v (cnt - 1) r with
+        | nil => rw [hm] at i2; simp at i2
+        | cons a b => rw [hm] at i2; simpa [List.getLast?_cons_cons] using i2
+    · simp only [hk, if_false]
+      have h2' : cnt ≤ (r.filter (fun k => k.1 = v)).length := by
+        simpa [List.filter_cons, hk] using h2
+      obtain ⟨i1, j, i2, i3⟩ := ih cnt h1 h2'
+      refine ⟨by simp [List.filter_cons, hk, i1], j, ?_, i3⟩
+      cases hm : markSpiral v cnt r with
+      | nil => rw [hm] at i2; simp at i2
+      | cons a b => rw [hm] at i2; simpa [List.getLast?_cons_cons] using i2
+
 end OFCore.Engine
